@@ -137,24 +137,29 @@ func nearInt(r *rand.Rand, i int64) int64 {
 
 // GlobFor draws a pattern that is related to s (matches it about half of the time).
 func GlobFor(r *rand.Rand, s string) string {
+	// a wildcard is sometimes written as a run of 2..5 stars (same language)
+	star := "*"
+	if r.IntN(4) == 0 {
+		star = strings.Repeat("*", 2+r.IntN(4))
+	}
 	switch r.IntN(7) {
 	case 0:
-		return "*"
+		return star
 	case 1:
 		return EscapeGlob(s)
 	case 2: // prefix*
 		k := cut(r, s)
-		return EscapeGlob(s[:k]) + "*"
+		return EscapeGlob(s[:k]) + star
 	case 3: // *suffix
 		k := cut(r, s)
-		return "*" + EscapeGlob(s[k:])
+		return star + EscapeGlob(s[k:])
 	case 4: // pre*suf
 		k := cut(r, s)
-		return EscapeGlob(s[:k]) + "*" + EscapeGlob(s[k:])
+		return EscapeGlob(s[:k]) + star + EscapeGlob(s[k:])
 	case 5:
 		return EscapeGlob(s) + "x"
 	default:
-		return "x*" + EscapeGlob(s)
+		return "x" + star + EscapeGlob(s)
 	}
 }
 
